@@ -371,6 +371,9 @@ class Interp:
             if base == ('self',) and len(proj) == 1 and "f" in proj[0]:
                 return ('fieldref', proj[0].get("n", proj[0]["f"]))
             v = self.load_place(st, p)
+            if (r.get("bk") == "mut" or k == "rawptr") and not any("deref" in e for e in p.get("p", [])):
+                # `&mut local`: a callee (or a write through the reference) may change the local behind our back
+                st["borrowed"] = st.get("borrowed", frozenset()) | {p["l"]}
             if isinstance(v, tuple) and v[0] in ('fieldref', 'self', 'slice', 'array', 'nvit', 'some', 'none'):
                 return v
             if isinstance(v, Lin):
@@ -574,6 +577,7 @@ class Interp:
     def _clone(self, st):
         return {"body": st["body"], "env": dict(st["env"]), "heap": dict(st["heap"]), "ctx": st["ctx"].copy(),
                 "regions": dict(st["regions"]), "trace": list(st["trace"]), "events": list(st["events"]), "sp": st["sp"],
+                "borrowed": st.get("borrowed", frozenset()),
                 "stack": [dict(fr, env=dict(fr["env"])) for fr in st["stack"]]}
 
     def _ty(self, body, l):
@@ -876,6 +880,19 @@ class Interp:
         # unknown callee: must not receive `self` mutably (it could move the cursors)
         if self.cursors and any(a == ('self',) or (isinstance(a, tuple) and a[0] == 'fieldref' and a[1] in self.cursors) for a in args):
             self.oblige(st, "escape", "self is passed to %s, which this analysis does not look into" % name, False, t.get("sp"))
+        elif any(a == ('self',) for a in args):
+            st["heap"] = {}         # self moved into / lent to an unknown callee: nothing is known about its fields afterwards
+        else:
+            for a in args:
+                if isinstance(a, tuple) and a[0] == 'fieldref':
+                    st["heap"].pop(a[1], None)      # `&mut self.field` lent to an unknown callee
+        # locals that were mutably borrowed may have been changed by any callee holding the reference
+        for l in st.get("borrowed", ()):
+            v = st["env"].get(l)
+            if v == ('self',) or (isinstance(v, tuple) and v[0] == 'nvit'):
+                # ('nvit', L) is an upper bound on what the iterator still holds; stepping the iterator keeps it
+                continue
+            st["env"].pop(l, None)
         self.store(st, t["dest"], self.fresh_for(dty, ctx, short or "r"))
         return None
 
